@@ -153,7 +153,7 @@ func c15(run *ev.Run) int {
 	srv := svc.NewServerWith(reg, hs, front)
 	defer srv.Close()
 	cases := c15Cases(run)
-	reps := run.Pick(1, 4)
+	reps := run.Pick(1, 6)
 	var total int64
 	parallel(12, len(cases)*reps, func(i int) {
 		c := cases[i%len(cases)]
@@ -232,7 +232,8 @@ func c15Run(run *ev.Run, srv *svc.Server, c c15Case) {
 	sd := &scripted{cs: cs, kind: c.kind, callID: call.ID, ctx: ctx, cancel: fire, timeout: 15 * time.Second, handlerDone: call.Log.Finished}
 	hooked := int32(0)
 	if hookOp != "" {
-		sd.blockAfter = 60 * time.Millisecond
+		// vary how long the operation has been blocked when the instant comes
+		sd.blockAfter = time.Duration(20+len(key)%5*40) * time.Millisecond
 		seenR := 0
 		sd.blockedHook = func(op string) {
 			// fire once, in the first matching op that stays blocked
